@@ -934,3 +934,459 @@ func cjCanon(fn *ssa.Function) func(ssa.Value) ssa.Value {
 		return v
 	}
 }
+
+// ---------- helper-transparent resolution (robustness pass) ----------
+
+// cjSSACallAt finds the SSA call instruction of an AST call expression inside
+// sf or its nested closures.
+func cjSSACallAt(sf *ssa.Function, call *ast.CallExpr) *ssa.Call {
+	for _, fn := range cjWithAnon(sf) {
+		for _, b := range fn.Blocks {
+			for _, in := range b.Instrs {
+				if c, ok := in.(*ssa.Call); ok && c.Pos() == call.Lparen {
+					return c
+				}
+			}
+		}
+	}
+	return nil
+}
+
+// cjLastIdx is the index of the last result of the call's callee (the verdict by Go convention).
+func cjLastIdx(call *ssa.Call) int {
+	return call.Common().Signature().Results().Len() - 1
+}
+
+// cjBody returns the SSA function of a statically called function that has a
+// body in the loaded program, else nil.
+func cjBody(call ssa.CallInstruction) *ssa.Function {
+	sc := call.Common().StaticCallee()
+	if sc == nil || len(sc.Blocks) == 0 {
+		return nil
+	}
+	return sc
+}
+
+// cjDeepVerdict checks, for a deep call site of f (a library call reached
+// directly or through helpers), that at every level the results are used only
+// after that level's verdict (last result) tested good, or are handed on
+// together with the verdict.
+func cjDeepVerdict(c *engine.Ctx, p *engine.Prog, f *engine.Fn, d engine.DeepSite) (bool, string) {
+	fns := append([]*engine.Fn{f}, d.Chain...)
+	for i, fn := range fns {
+		sf := p.SSAFunc(fn)
+		if sf == nil {
+			return false, "no SSA for " + fn.Name
+		}
+		var callExpr *ast.CallExpr
+		switch {
+		case i == len(fns)-1:
+			callExpr = d.Inner.Call
+		case i == 0:
+			callExpr = d.Outer.Call
+		default:
+			for _, s := range fn.Calls() {
+				if o, _ := s.Callee.(*types.Func); o != nil && p.FnOf(o) == fns[i+1] {
+					callExpr = s.Call
+				}
+			}
+		}
+		if i == 0 {
+			callExpr = d.Outer.Call
+		}
+		if callExpr == nil {
+			return false, "call chain not resolved in " + fn.Name
+		}
+		sc := cjSSACallAt(sf, callExpr)
+		if sc == nil {
+			return false, "SSA call not found in " + fn.Name
+		}
+		if ok, why := cjUsesGated(sc, cjLastIdx(sc)); !ok {
+			return false, "in " + fn.Name + ": " + why
+		}
+	}
+	return true, "results used only on the good edge of the verdict at every level of the call chain"
+}
+
+// cjChainArg resolves an expression of the innermost function of a deep site
+// outwards: while it is (a conversion of) a parameter of the helper it is
+// replaced by the argument at the call of that helper. Returns the expression
+// and the function whose variables it is written in.
+func cjChainArg(f *engine.Fn, d engine.DeepSite, e ast.Expr) (ast.Expr, *engine.Fn) {
+	fns := append([]*engine.Fn{f}, d.Chain...)
+	cur := len(fns) - 1
+	for cur > 0 {
+		h := fns[cur]
+		x := c48StripConv(h.Info(), e)
+		obj := engine.ObjOf(h.Info(), x)
+		idx := -1
+		k := 0
+		for _, fld := range h.Type.Params.List {
+			for _, nm := range fld.Names {
+				if h.Info().ObjectOf(nm) == obj && obj != nil {
+					idx = k
+				}
+				k++
+			}
+		}
+		if _, isIdent := ast.Unparen(x).(*ast.Ident); !isIdent || idx < 0 {
+			// the receiver of a method helper
+			if rv := cjRecv(h); rv != nil && obj == rv {
+				if call := cjCallOf(fns[cur-1], h, d, cur-1); call != nil {
+					if se, ok := ast.Unparen(call.Fun).(*ast.SelectorExpr); ok {
+						e = se.X
+						cur--
+						continue
+					}
+				}
+			}
+			return e, h
+		}
+		call := cjCallOf(fns[cur-1], h, d, cur-1)
+		if call == nil || idx >= len(call.Args) {
+			return e, h
+		}
+		e = call.Args[idx]
+		cur--
+	}
+	return e, fns[cur]
+}
+
+// cjCallOf returns the call expression in `in` (level lvl of the chain) that enters helper h.
+func cjCallOf(in *engine.Fn, h *engine.Fn, d engine.DeepSite, lvl int) *ast.CallExpr {
+	if lvl == 0 {
+		return d.Outer.Call
+	}
+	for _, s := range in.Calls() {
+		if o, _ := s.Callee.(*types.Func); o != nil && in.Prog.FnOf(o) == h {
+			return s.Call
+		}
+	}
+	return nil
+}
+
+// cjResolveLocal replaces an identifier that is a local variable with exactly
+// one definition in f by its defining expression (repeatedly, bounded).
+func cjResolveLocal(f *engine.Fn, e ast.Expr) ast.Expr {
+	info := f.Info()
+	for i := 0; i < 4; i++ {
+		id, ok := ast.Unparen(e).(*ast.Ident)
+		if !ok {
+			return e
+		}
+		obj, ok := info.ObjectOf(id).(*types.Var)
+		if !ok || obj.IsField() {
+			return e
+		}
+		var def ast.Expr
+		n := 0
+		engine.InspectBody(f, func(nd ast.Node) {
+			switch a := nd.(type) {
+			case *ast.AssignStmt:
+				for j, l := range a.Lhs {
+					if lid, ok := l.(*ast.Ident); ok && info.ObjectOf(lid) == obj {
+						n++
+						if len(a.Lhs) == len(a.Rhs) {
+							def = a.Rhs[j]
+						} else {
+							def = nil
+						}
+					}
+				}
+			case *ast.ValueSpec:
+				for j, nm := range a.Names {
+					if info.ObjectOf(nm) == obj && len(a.Values) == len(a.Names) {
+						n++
+						def = a.Values[j]
+					}
+				}
+			case *ast.IncDecStmt:
+				if lid, ok := a.X.(*ast.Ident); ok && info.ObjectOf(lid) == obj {
+					n += 2
+				}
+			}
+		})
+		if n != 1 || def == nil {
+			return e
+		}
+		e = def
+	}
+	return e
+}
+
+// cjFact is a condition known to hold (Neg: known not to hold) at a site.
+type cjFact struct {
+	Fn   *engine.Fn // the function whose variables E is written in
+	E    ast.Expr
+	Neg  bool
+	Args map[types.Object]ast.Expr // for facts inside a helper: parameter -> argument expression (in Outer's terms)
+}
+
+// cjFactsAt lists the atomic facts at a site: every gate is split into its
+// conjuncts (when it holds) or disjuncts (when it does not), `!x` flips the
+// polarity, and a fact that is a call of an in-program bool function whose body
+// is a single `return expr` is expanded into expr's conjuncts (holding case).
+func cjFactsAt(f *engine.Fn, s *engine.Site) []cjFact {
+	var out []cjFact
+	var add func(fn *engine.Fn, e ast.Expr, holds bool, depth int)
+	add = func(fn *engine.Fn, e ast.Expr, holds bool, depth int) {
+		e = ast.Unparen(e)
+		if u, ok := e.(*ast.UnaryExpr); ok && u.Op == token.NOT {
+			add(fn, u.X, !holds, depth)
+			return
+		}
+		if b, ok := e.(*ast.BinaryExpr); ok {
+			if (b.Op == token.LAND && holds) || (b.Op == token.LOR && !holds) {
+				add(fn, b.X, holds, depth)
+				add(fn, b.Y, holds, depth)
+				return
+			}
+		}
+		out = append(out, cjFact{Fn: fn, E: e, Neg: !holds})
+		if call, ok := e.(*ast.CallExpr); ok && holds && depth < 2 {
+			if st := fn.SiteOf(call); st != nil {
+				if o, _ := st.Callee.(*types.Func); o != nil {
+					if h := fn.Prog.FnOf(o); h != nil && len(h.Body.List) == 1 {
+						if r, ok := h.Body.List[0].(*ast.ReturnStmt); ok && len(r.Results) == 1 {
+							add(h, r.Results[0], true, depth+1)
+						}
+					}
+				}
+			}
+		}
+	}
+	for _, gt := range f.Graph().Gates(s) {
+		add(f, gt.Full(), gt.OnTrue, 0)
+	}
+	return out
+}
+
+// cjCmpFact normalises a comparison fact to "x op y holds": returns ok=false
+// when the fact is not a comparison.
+func cjCmpFact(ft cjFact) (x ast.Expr, op token.Token, y ast.Expr, ok bool) {
+	b, isB := ast.Unparen(ft.E).(*ast.BinaryExpr)
+	if !isB {
+		return nil, 0, nil, false
+	}
+	op = b.Op
+	switch op {
+	case token.LSS, token.LEQ, token.GTR, token.GEQ, token.EQL, token.NEQ:
+	default:
+		return nil, 0, nil, false
+	}
+	if ft.Neg {
+		op = engine.Negate(op)
+	}
+	return b.X, op, b.Y, true
+}
+
+// cjEqualityGates: target is reached only when x equals a value satisfying
+// isOther. Recognised: a direct `x == o` / `x != o` test whose equal edge
+// dominates target; or a call H(…x…o…) of an in-program function whose verdict
+// (last result: nil error / true) gates target and whose every good return is
+// itself reached only when the two corresponding parameters are equal.
+func cjEqualityGates(sf *ssa.Function, x ssa.Value, isOther func(ssa.Value) bool, target *ssa.BasicBlock, depth int) bool {
+	if x == nil || x.Referrers() == nil {
+		return false
+	}
+	for _, r := range *x.Referrers() {
+		switch in := r.(type) {
+		case *ssa.BinOp:
+			if in.Op != token.NEQ && in.Op != token.EQL {
+				continue
+			}
+			other := in.Y
+			if in.Y == x {
+				other = in.X
+			}
+			if !isOther(other) {
+				continue
+			}
+			good := 1
+			if in.Op == token.EQL {
+				good = 0
+			}
+			for _, rr := range *in.Referrers() {
+				if i, isIf := rr.(*ssa.If); isIf && cjEdgeDominates(i.Block(), good, target) {
+					return true
+				}
+			}
+		case *ssa.Call:
+			h := cjBody(in)
+			if h == nil || depth <= 0 {
+				continue
+			}
+			verdict := cjResult(in, cjLastIdx(in))
+			if verdict == nil || !cjGated(verdict, target) {
+				continue
+			}
+			for i, a := range in.Call.Args {
+				if a != x {
+					continue
+				}
+				for j, o := range in.Call.Args {
+					if j == i || !isOther(o) || i >= len(h.Params) || j >= len(h.Params) {
+						continue
+					}
+					pj := h.Params[j]
+					good := 0
+					all := true
+					for _, b := range h.Blocks {
+						ret, ok := b.Instrs[len(b.Instrs)-1].(*ssa.Return)
+						if !ok || len(ret.Results) == 0 {
+							continue
+						}
+						last := ret.Results[len(ret.Results)-1]
+						isGood := false
+						if types.IsInterface(last.Type()) {
+							isGood = cjIsNilConst(last)
+						} else if k, ok := last.(*ssa.Const); ok && k.Value != nil && k.Value.Kind() == constant.Bool {
+							isGood = constant.BoolVal(k.Value)
+						} else {
+							all = false // verdict computed, not a constant: cannot classify
+						}
+						if !isGood {
+							continue
+						}
+						good++
+						if !cjEqualityGates(h, h.Params[i], func(v ssa.Value) bool { return v == ssa.Value(pj) }, b, depth-1) {
+							all = false
+						}
+					}
+					if good > 0 && all {
+						return true
+					}
+				}
+			}
+		}
+	}
+	return false
+}
+
+// ---------- symbolic terms over SSA values (helper-transparent) ----------
+
+// cjSymbolic renders SSA values as terms. Calls of functions of the root
+// function's own package that have a single (success) return are entered, so a
+// value computed in a private helper renders like the inlined expression.
+// Every non-entered call carries an identity tag "@n" (same instruction ⇒ same
+// tag) so that two different CRandBytes(16) calls are different terms.
+type cjSymbolic struct {
+	pkg *ssa.Package
+	ids map[ssa.Value]int
+}
+
+func cjNewSym(root *ssa.Function) *cjSymbolic {
+	return &cjSymbolic{pkg: root.Pkg, ids: map[ssa.Value]int{}}
+}
+
+func (s *cjSymbolic) id(v ssa.Value) int {
+	if n, ok := s.ids[v]; ok {
+		return n
+	}
+	s.ids[v] = len(s.ids) + 1
+	return s.ids[v]
+}
+
+// successResult returns result #idx of callee's only success return (the only
+// return, or the only one whose trailing error result is nil).
+func cjSuccessResult(callee *ssa.Function, idx int) ssa.Value {
+	var rets, good []*ssa.Return
+	for _, b := range callee.Blocks {
+		if r, ok := b.Instrs[len(b.Instrs)-1].(*ssa.Return); ok {
+			rets = append(rets, r)
+			if n := len(r.Results); n > 0 && types.IsInterface(r.Results[n-1].Type()) && cjIsNilConst(r.Results[n-1]) {
+				good = append(good, r)
+			}
+		}
+	}
+	pick := rets
+	if len(rets) != 1 {
+		pick = good
+	}
+	if len(pick) != 1 || idx >= len(pick[0].Results) {
+		return nil
+	}
+	return pick[0].Results[idx]
+}
+
+func (s *cjSymbolic) Term(v ssa.Value, env map[ssa.Value]string, depth int) string {
+	if t, ok := env[v]; ok {
+		return t
+	}
+	switch x := v.(type) {
+	case nil:
+		return "<nil>"
+	case *ssa.Const:
+		if x.Value == nil {
+			return "nil"
+		}
+		return x.Value.ExactString()
+	case *ssa.Parameter:
+		for k, p := range x.Parent().Params {
+			if p == x {
+				return fmt.Sprintf("param#%d", k)
+			}
+		}
+	case *ssa.FreeVar:
+		return "free:" + x.Name()
+	case *ssa.ChangeType:
+		return s.Term(x.X, env, depth)
+	case *ssa.MakeInterface:
+		return s.Term(x.X, env, depth)
+	case *ssa.Convert:
+		return "conv:" + x.Type().String() + "(" + s.Term(x.X, env, depth) + ")"
+	case *ssa.BinOp:
+		return "(" + s.Term(x.X, env, depth) + " " + x.Op.String() + " " + s.Term(x.Y, env, depth) + ")"
+	case *ssa.UnOp:
+		return x.Op.String() + s.Term(x.X, env, depth)
+	case *ssa.Slice:
+		f := func(v ssa.Value) string {
+			if v == nil {
+				return ""
+			}
+			return s.Term(v, env, depth)
+		}
+		return s.Term(x.X, env, depth) + "[" + f(x.Low) + ":" + f(x.High) + "]"
+	case *ssa.Extract:
+		if call, ok := x.Tuple.(*ssa.Call); ok {
+			if t, ok := s.enter(call, x.Index, env, depth); ok {
+				return t
+			}
+		}
+		return s.Term(x.Tuple, env, depth) + "#" + fmt.Sprint(x.Index)
+	case *ssa.Call:
+		if x.Common().Signature().Results().Len() == 1 {
+			if t, ok := s.enter(x, 0, env, depth); ok {
+				return t
+			}
+		}
+		var args []string
+		for _, a := range x.Call.Args {
+			args = append(args, s.Term(a, env, depth))
+		}
+		name := cjCalleeName(x)
+		if name == "" {
+			name = "dyn"
+		}
+		return fmt.Sprintf("%s(%s)@%d", name, strings.Join(args, ", "), s.id(x))
+	}
+	return fmt.Sprintf("?%T@%d", v, s.id(v))
+}
+
+func (s *cjSymbolic) enter(call *ssa.Call, idx int, env map[ssa.Value]string, depth int) (string, bool) {
+	h := cjBody(call)
+	if h == nil || depth <= 0 || h.Pkg != s.pkg {
+		return "", false
+	}
+	res := cjSuccessResult(h, idx)
+	if res == nil {
+		return "", false
+	}
+	env2 := map[ssa.Value]string{}
+	for k, p := range h.Params {
+		if k < len(call.Call.Args) {
+			env2[p] = s.Term(call.Call.Args[k], env, depth)
+		}
+	}
+	return s.Term(res, env2, depth-1), true
+}
